@@ -19,7 +19,7 @@ from vf.props.common import harness_error, inconclusive, proved, violation
 ID = "C05"
 LEVEL = "model_checking"
 ITEM_BUDGET_S = {"quick": 300, "thorough": 1200}
-QT = {"quick": 15000, "thorough": 60000}
+QT = {"quick": 15000, "thorough": 30000}
 _TIER = "quick"
 
 META = dict(
@@ -69,6 +69,20 @@ def observe(model, val):
             single[v.name] = e
     out["single"] = single
     out["pvars"] = [v.name for v in p.variables]
+    # the SAME problem extracted again after every declared bound was re-assigned (bounds live on the variables;
+    # no minimize / subject_to in between), with another extractor instance
+    from vf.engine.sym import SReal
+    new = {}
+    symbolic = any(isinstance(t, SReal) for t in val.values())
+    for i, v in enumerate(p.variables):
+        nl, nu = (SReal.var(f"nl{i}"), SReal.var(f"nu{i}")) if symbolic else (-1.5 - i, 2.5 + i)
+        v.lb, v.ub = nl, (None if i % 3 == 2 else nu)
+        new[v.name] = (v.lb, v.ub)
+    try:
+        out["lp2"] = LinearProgramExtractor().extract(p)
+    except Exception as e:  # noqa: BLE001
+        out["lp2"] = e
+    out["new_bounds"] = new
     return out
 
 
@@ -170,6 +184,27 @@ def check_model(model, planted=False):
             res.append(violation(f"C05|bounds-none|{form}", f"{tag}: bound of {bad[0]} is {bad[1]} but declared {bad[2]}", dict(payload, kind="raises")))
         elif claims:
             res.append(K.decide(claims, pc, [], f"{tag}: LP.bounds == declared bounds", f"C05|bounds|{form}", dict(payload, ob="bounds"), allv, QT[_TIER]))
+        # second extraction after the bounds were re-assigned
+        lp2 = out.get("lp2")
+        if isinstance(lp2, Exception):
+            res.append(violation(f"C05|re-extract-raises|{form}", f"{tag}: extraction after a bound edit raises {lp2!r}", dict(payload, kind="reextract")))
+        elif lp2 is not None:
+            claims, bad = [], None
+            cols2 = list(lp2.variables)
+            for i, n in enumerate(cols2):
+                lb, ub = out["new_bounds"].get(n, (None, None))
+                glb, gub = lp2.bounds[i]
+                for g, d in ((glb, lb), (gub, ub)):
+                    if (g is None) != (d is None):
+                        bad = (n, g, d)
+                    elif g is not None:
+                        claims.append(smt.eq(g, d))
+            nb_names = [f"nl{i}" for i in range(len(cols2))] + [f"nu{i}" for i in range(len(cols2))]
+            if bad or cols2 != cols:
+                res.append(violation(f"C05|re-extract-bounds|{form}", f"{tag}: after re-assigning the bounds a second extraction gives bound {bad} / columns {cols2}", dict(payload, kind="reextract")))
+            else:
+                res.append(K.decide(claims, pc, [], f"{tag}: second extraction after a bound edit returns the NEW declared bounds", f"C05|re-extract-bounds|{form}",
+                                    dict(payload, kind="reextract"), allv + nb_names, QT[_TIER]))
     return res
 
 
@@ -208,6 +243,15 @@ def replay(payload):
         try:
             out = observe(model, pt)
             if "lp" not in out:
+                continue
+            if payload["kind"] == "reextract":
+                lp2 = out.get("lp2")
+                if isinstance(lp2, Exception):
+                    return True, f"extraction after a bound edit raises {lp2!r}"
+                for n, (glb, gub) in zip(list(lp2.variables), lp2.bounds):
+                    lb, ub = out["new_bounds"][n]
+                    if (glb is None) != (lb is None) or (gub is None) != (ub is None) or (lb is not None and abs(glb - lb) > 1e-12) or (ub is not None and abs(gub - ub) > 1e-12):
+                        return True, f"after re-assigning the bounds of {n} to {(lb, ub)} a second extraction still reports {(glb, gub)}"
                 continue
             lp = out["lp"]
             cols = list(lp.variables)
